@@ -6,7 +6,9 @@ from cache_common import *
 ASSUME = [
     "under the cooperative scheduler every file operation is atomic and a scheduling point (local-filesystem assumption: a single "
     "write/truncate is atomic with respect to other operations on the same file); free mode runs real processes with real overlap",
-    "actors of a controlled run are goroutines of one process: faithful because the cache keeps no in-process state",
+    "actors of a controlled run are goroutines of one process; in every other run each actor has a Cache value of its own on the "
+    "directory (what separate processes have), in the others they share one (what the goroutines of one process have); after the run "
+    "every id is looked up through a fresh value and through each actor's own",
     "programs and start states: MC_Cache family C11 (2 writers + 1 reader, 2 ids, 4 contents incl. empty and equal-length ones)",
 ]
 
